@@ -54,7 +54,9 @@ def scalar_contract(label, post, deg_out=0, pre=None, pre_name=None, arg_filter=
         done = c.__dict__.setdefault("_stub_done", set())
         if k.get_id() not in done:
             done.add(k.get_id())
-            c.assume(post(r, *args))
+            from .extract import exact_spec
+            with exact_spec():
+                c.assume(post(r, *args))
         return r
 
     return stub
